@@ -247,6 +247,12 @@ def make_doc(rng, lang, quick):
         if rng.random() < 0.2:
             # PTB-style pre-tokenised text: bracket escapes are words like any other
             rng.choice(toks)['word'] = rng.choice(['-LRB-', '-RRB-', '-LCB-', '-RCB-', '-LSB-', '-RSB-'])
+        if len(toks) >= 2 and rng.random() < 0.25:
+            # the same word twice ("the ... the", two identical particles): two token OBJECTS with equal content
+            i_, j_ = rng.sample(range(len(toks)), 2)
+            content = dict(toks[i_])
+            toks[j_].clear()
+            toks[j_].update(content)
         pool = [Category.parse(s) for s in rng.sample(gen.inventory(lang), 8)]
         trees = [base]
         for _ in range(rng.choice([0, 1, 1, 2])):
